@@ -304,6 +304,11 @@ class Unit:
             if s not in self.spec.relies: out.append(f"Y_RELY_DEFAULT({c}, {s})")
             out.append(f"Y_DEFINE_ATOMIC({c}, {s})")
             if c in ('uint8_t', 'uint16_t', 'uint32_t', 'uint64_t', 'int', 'int64_t'): out.append(f"Y_DEFINE_ATOMIC_ARITH({c}, {s})")
+        out.append("#if defined(Y_SKELETON_VEC) && !defined(Y_VEC_ERASE_HOOK)\n#define Y_VEC_ERASE_HOOK(v, newsize) ((void)0)\n#endif")
+        for nm, t in self.em.ty.generated.items():
+            if t.kind == 'vector':
+                e = self.em.cn(t.args[0])
+                out.append(f"#if defined(Y_SKELETON_VEC) && !defined(Y_VEC_PUSH_{e})\n#define Y_VEC_PUSH_{e}(v, x) ((void)(x), (v)->size++)\n#endif")
         for r in sorted(self.em.need_new):
             kp = self.kind_path(r)
             out.append(f"static inline {r}* Y_NEW_{r}(void);")
